@@ -39,6 +39,9 @@ def check(repo: Repo, rep, tier):
     range_prov(repo, rep)
     char_units(repo, rep)
     stale_bindings(repo, rep, {"config"}, "e.g. a copied `config` never sees the format-command read in pytest_configure, so code fragments are piped through the wrong formatter path")
+    from .C15 import fmt_degrade
+
+    fmt_degrade(repo, rep)
 
 
 def string_tokens(repo: Repo, rep):
